@@ -241,6 +241,33 @@ def _known_signatures() -> dict:
 KNOWN_SIGNATURES = _known_signatures()
 
 
+def _param_always(model: Model, g: FunctionInfo, pname: str, value) -> bool:
+    """Every call of the (new) helper ``g`` in the package binds its parameter ``pname`` to the literal ``value`` or
+    to a new optional keyword of the caller whose default is ``value`` (and that nobody switches away from it)."""
+    idx = [p.name for p in g.params].index(pname)
+    n = 0
+    for h in model.functions.values():
+        if h is g:
+            continue
+        for c in ast.walk(h.node):
+            if isinstance(c, ast.Call) and ((isinstance(c.func, ast.Name) and c.func.id == g.name) or (isinstance(c.func, ast.Attribute) and c.func.attr == g.name)):
+                n += 1
+                a = c.args[idx] if idx < len(c.args) else next((k.value for k in c.keywords if k.arg == pname), None)
+                if a is None:
+                    prm = g.param(pname)
+                    if prm.default is not None and isinstance(prm.default, ast.Constant) and prm.default.value == value:
+                        continue
+                    return False
+                if isinstance(a, ast.Constant) and a.value == value and type(a.value) is type(value):
+                    continue
+                if isinstance(a, ast.Name):
+                    theirs = new_defaulted_params(model, h)
+                    if a.id in theirs and theirs[a.id] == value:
+                        continue
+                return False
+    return n > 0
+
+
 def new_defaulted_params(model: Model, fn: FunctionInfo) -> dict:
     """Parameters of ``fn`` that the pinned tree did not have, that carry a constant default and that no call in
     the package passes: {name: default value}.  The property speaks about the API as pinned - the function is read
@@ -312,6 +339,9 @@ def new_defaulted_params(model: Model, fn: FunctionInfo) -> dict:
                             if isinstance(k.value, ast.Name) and g is not fn:
                                 theirs = new_defaulted_params(model, g)
                                 if k.value.id in theirs and theirs[k.value.id] == dflt:
+                                    continue
+                                # a brand-new helper that hands ITS parameter on: what do the helper's callers give it?
+                                if KNOWN_SIGNATURES.get(g.qualname) is None and g.param(k.value.id) is not None and _param_always(model, g, k.value.id, dflt):
                                     continue
                             if isinstance(k.value, ast.Constant) and k.value.value == dflt and type(k.value.value) is type(dflt):
                                 continue
@@ -1149,6 +1179,9 @@ class _Builder:
                                 neg = False
                                 while op(g_) == "not":
                                     g_, neg = g_[1], not neg
+                                if op(g_) == "cmp" and g_[1] in ("is", "is not", "==", "!=") and op(g_[2]) == "const" and op(g_[3]) == "const":
+                                    same_ = (g_[2][1] is g_[3][1]) if (g_[2][1] is None or g_[3][1] is None or isinstance(g_[2][1], bool) or isinstance(g_[3][1], bool)) else (type(g_[2][1]) is type(g_[3][1]) and g_[2][1] == g_[3][1])
+                                    g_ = ("const", same_ if g_[1] in ("is", "==") else not same_)
                                 if op(g_) != "const":
                                     ok = None
                                     break
